@@ -467,6 +467,11 @@ CORPUS["C18"] = [
 ]
 
 CORPUS["C19"] = [
+    B('layer index from pressure: searchsorted on the negated table above the ground layer', (ATM, '    i = np.zeros_like(P, dtype=int)\n    for j in range(1, len(P_b)):\n        i[P_b[j] >= P] = j\n', '    i = np.searchsorted(-P_b[1:], -P, side="right")\n')),
+    M('layer index from pressure: negated table without the sentinel row, minus one', (ATM, '    i = np.zeros_like(P, dtype=int)\n    for j in range(1, len(P_b)):\n        i[P_b[j] >= P] = j\n', '    i = np.searchsorted(-P_b[:-1], -P, side="right") - 1\n')),
+    M('layer index from pressure: negated table, counted from the left', (ATM, '    i = np.zeros_like(P, dtype=int)\n    for j in range(1, len(P_b)):\n        i[P_b[j] >= P] = j\n', '    i = np.searchsorted(-P_b[1:], -P, side="left")\n')),
+    M('layer index from altitude: table without the sentinel row, minus one', (ATM, '    i = np.zeros_like(h, dtype=int)\n    for j in range(1, len(H_b)):\n        i[H_b[j] <= h] = j\n', '    i = np.searchsorted(H_b[:-1], h, side="right") - 1\n')),
+    B('layer index from altitude: whole table by the method spelling, minus one, floored', (ATM, '    i = np.zeros_like(h, dtype=int)\n    for j in range(1, len(H_b)):\n        i[H_b[j] <= h] = j\n', '    i = np.maximum(H_b.searchsorted(h, side="right") - 1, 0)\n')),
     M("both copies: ratio through the reciprocal of the argument-typed pressure (0 for integer pressures)", (PRESS, "    H[m & x] += T_b[i][m & x] * (1.0 / gmr) * (np.log(P_b[i][m & x] / P[m & x]))", "    H[m & x] += T_b[i][m & x] * (1.0 / gmr) * (np.log(P_b[i][m & x] * np.reciprocal(P[m & x])))"), (ATM, "    H[m & x] += T_b[i][m & x] * (1.0 / gmr) * (np.log(P_b[i][m & x] / P[m & x]))", "    H[m & x] += T_b[i][m & x] * (1.0 / gmr) * (np.log(P_b[i][m & x] * np.reciprocal(P[m & x])))")),
     B("both copies: ratio through the reciprocal of the pressure made float first", (PRESS, "    H[m & x] += T_b[i][m & x] * (1.0 / gmr) * (np.log(P_b[i][m & x] / P[m & x]))", "    H[m & x] += T_b[i][m & x] * (1.0 / gmr) * (np.log(P_b[i][m & x] * np.reciprocal(P[m & x] * 1.0)))"), (ATM, "    H[m & x] += T_b[i][m & x] * (1.0 / gmr) * (np.log(P_b[i][m & x] / P[m & x]))", "    H[m & x] += T_b[i][m & x] * (1.0 / gmr) * (np.log(P_b[i][m & x] * np.reciprocal(P[m & x] * 1.0)))")),
     B('layer index from pressure: searchsorted over the whole reversed table, clamped at the ground layer', (ATM, '    i = np.zeros_like(P, dtype=int)\n    for j in range(1, len(P_b)):\n        i[P_b[j] >= P] = j\n', '    i = np.maximum(len(P_b) - 1 - np.searchsorted(P_b[::-1], P, side="left"), 0)\n')),
